@@ -204,7 +204,67 @@ func judge(o callOut, op string, exp outcome, e *cz.Embedding, sch *cz.Schema) (
 	if got.Canon() != exp.V.Canon() {
 		return "value", map[string]any{"result": got.Canon(), "expected": exp.V.Canon(), "go": fmt.Sprintf("%#v", o.Val)}, false
 	}
+	if op == "unser" {
+		if e1, g1, ok := exactAtAny(sch, exp.V, got); !ok {
+			return "value", map[string]any{"result": g1, "expected": e1, "go": fmt.Sprintf("%#v", o.Val),
+				"note": "below an any schema the result is the normalised tree: int64 / float64 / []any / map[any]any"}, false
+		}
+	}
 	return "", nil, false
+}
+
+// exactAtAny compares, at every position whose schema is `any`, the expected and the returned value including the
+// container representations.
+func exactAtAny(s *cz.Schema, exp, got *cz.Value) (string, string, bool) {
+	if s == nil || exp == nil || got == nil {
+		return "", "", true
+	}
+	switch s.Kind {
+	case "any":
+		if exp.CanonExact() != got.CanonExact() {
+			return exp.CanonExact(), got.CanonExact(), false
+		}
+	case "list":
+		if exp.K == "list" && got.K == "list" && len(exp.List) == len(got.List) {
+			for i := range exp.List {
+				if e1, g1, ok := exactAtAny(s.Items, exp.List[i], got.List[i]); !ok {
+					return e1, g1, false
+				}
+			}
+		}
+	case "map":
+		if exp.K == "map" && got.K == "map" {
+			for _, p := range exp.Pairs {
+				for _, q := range got.Pairs {
+					if p[0].Canon() == q[0].Canon() {
+						if e1, g1, ok := exactAtAny(s.Vals, p[1], q[1]); !ok {
+							return e1, g1, false
+						}
+					}
+				}
+			}
+		}
+	case "object":
+		if s.Layout == "map" && exp.K == "map" && got.K == "map" {
+			for _, pr := range s.Props {
+				var a, b *cz.Value
+				for _, p := range exp.Pairs {
+					if p[0].S == pr.Name {
+						a = p[1]
+					}
+				}
+				for _, p := range got.Pairs {
+					if p[0].S == pr.Name {
+						b = p[1]
+					}
+				}
+				if e1, g1, ok := exactAtAny(pr.Type, a, b); !ok {
+					return e1, g1, false
+				}
+			}
+		}
+	}
+	return "", "", true
 }
 
 // points collects the model integers a vector mentions.
@@ -624,6 +684,7 @@ func runVector(c *vecCase) *resT {
 		}
 		if !ran {
 			rebuiltCheck(c, e, arg, r)
+			unitVariants(c, e, arg, r)
 		}
 		ran = true
 		type entry struct {
